@@ -409,7 +409,12 @@ def check_map(ctx, case, m, E, dt, res, tag, full=True):
     # ---- (3) genuine returns in one direction
     preds = np.vstack([seeds, S])
     readings = ["q"] if c.startswith("q") else ["inc", "dec", "literal"]
-    ok, name, diag, per = match(H, S, preds, c, dt, tol, readings)
+    try:
+        ok, name, diag, per = match(H, S, preds, c, dt, tol, readings)
+    except RuntimeError as e:      # the reference integrator gave up (not a statement about the library)
+        ctx.note("reference integration failed for %s: %s" % (head, e))
+        out["reference_failed"] = True
+        return out
     out["reading"] = name
     f1 = tol["f1"]
     firm = np.abs(f1) > 2.0 * dt * np.abs(tol["f2"])
@@ -541,6 +546,9 @@ def eval_case(case, ctx):
             stale = len(_REC["seeds"]) == 0 and len(r2.states) == len(base["states"])
             ctx.extra["same_object_second_compute_with_other_n_iter"] = ctx.extra.get("same_object_second_compute_with_other_n_iter", 0) + 1
             if stale:
+                if "same_object_second_compute_returned_stale_result" not in ctx.extra:
+                    ctx.note("observation (not asserted): compute() on the SAME map object with n_iter+1 returned the cached n_iter result without running "
+                             "the engine — the cache key built by make_key() keeps only the option NAMES (nested dicts are iterated over their keys)")
                 ctx.extra["same_object_second_compute_returned_stale_result"] = ctx.extra.get("same_object_second_compute_returned_stale_result", 0) + 1
         except Exception:          # noqa: BLE001 - observation only
             _REC["on"] = False
@@ -550,10 +558,16 @@ def eval_case(case, ctx):
         cls.append("points:%s" % ("0" if sm["M"] == 0 else "<=40" if sm["M"] <= 40 else "<=100" if sm["M"] <= 100 else ">100"))
         if sm.get("ill"):
             cls.append("has-ill-conditioned-crossings")
+        if sm.get("reference_failed"):
+            cls.append("reference-integration-failed")
         if sm.get("reading"):
             cls.append("reading:" + sm["reading"])
         if base["seeds"].shape[0] != int(case["n_seeds"]):
             cls.append("n_seeds-not-honoured")
+            if "n_seeds_not_honoured" not in ctx.extra:
+                ctx.note("observation (not asserted): SeedingOptions(n_seeds=%d) produced %d seeds (the strategies read n_seeds from the config object, which has no such field: default 20)"
+                         % (int(case["n_seeds"]), base["seeds"].shape[0]))
+            ctx.extra["n_seeds_not_honoured"] = ctx.extra.get("n_seeds_not_honoured", 0) + 1
         if int(case["n_iter"]) >= 2 and sm.get("pairs", 0) >= 1 and sm.get("complete") and multi >= 1:
             nt = repr(case)
     ctx.case(nontrivial=nt, cls=cls, n=nmaps,
